@@ -344,6 +344,41 @@ func runC03(c *Ctx) {
 					}
 				}
 			}
+			if ok && kindName(e.Site) == "defer" {
+				// deferred calls run last-in-first-out: a deferred state update registered BEFORE the deferred dispatch
+				// runs AFTER it. Every other defer of the handler that (transitively) touches the tracker or Config.Me
+				// must therefore be registered after the dispatch, i.e. be dominated by it.
+				seenE := map[*ssa.Function]*connEffects{}
+				funcInstrs(fn, func(x ssa.Instruction) {
+					d, isD := x.(*ssa.Defer)
+					if !isD || x == e.Site {
+						return
+					}
+					touches := false
+					for _, ed := range c.Callees(d) {
+						if ed.Callee == nil || !c.InModuleFn(ed.Callee) {
+							continue
+						}
+						reach := c.Closure([]*ssa.Function{ed.Callee}, func(from *ssa.Function, e2 Edge) bool { return e2.Kind != EdgeGo })
+						for _, f2 := range reach.Order {
+							if !c.InModuleFn(f2) {
+								continue
+							}
+							if c.connEffectsOf(f2, seenE).mutTrack {
+								touches = true
+							}
+							funcInstrs(f2, func(y ssa.Instruction) {
+								if c.isFieldStore(y, a.CfgMe) || c.isStoreThroughField(y, a.CfgMe) {
+									touches = true
+								}
+							})
+						}
+					}
+					if touches && !instrDominates(e.Site, x) {
+						ok, why = false, "the deferred state update at "+c.InstrPos(x)+" is registered before the deferred dispatch, so it runs after CONNECTED has been delivered"
+					}
+				})
+			}
 			r.Add("R4", "connected:"+c.FuncKey(fn), c.InstrPos(e.Site), c.FuncKey(fn), "CONNECTED dispatched from the 001 internal handler after its state updates", ok, why)
 		}
 	}
